@@ -19,6 +19,9 @@ SPEC = {
         "(pairs <pgn>_t / <pgn>_e); `x / constant` of a whole unsigned parameter is read as the parameter's code with a side "
         "record of that resolution (truncating division, done by `Pair.intCode` in the driver). PGN 126464 (loop) is outside "
         "the layout language: harness' table-driven encoder only",
+        "enumerated fields: a frozen table (enumerator name -> published numeric code, numeric literals) is compared by the "
+        "kernel with the enumerations as read from the headers on this run (C15_enum_*), and the harness looks the passed value "
+        "up BY NAME among the enumerators as compiled from the real headers and demands the published code on the wire",
         "scaled fields: the theorem pins offset, byte width, signedness and resolution of the Add<N>Byte[U]Double call; the "
         "double->code conversion itself is property C06",
         "signedness of integer fields is checked when the parameter fills its C type (int8_t/int16_t vs published signed); "
